@@ -695,8 +695,9 @@ class NUMERIC(FieldType):
     def unprepare_number(self, x):
         dc = self.decimal_places
         if dc:
-            s = str(x)
-            x = Decimal(s[:-dc] + "." + s[-dc:])
+            # Move the decimal point (string slicing breaks for numbers with
+            # fewer digits than decimal places and for negative numbers)
+            x = Decimal(x).scaleb(-dc)
         return x
 
     def to_column_value(self, x):
